@@ -1,5 +1,72 @@
 import NavisModel.Proofs.RerootLemmas
+import NavisModel.Proofs.WfB
+/-!
+# C01 — every operation that yields a skeleton yields a well-formed skeleton
+
+`WF` (rank form: unique non-negative ids, parents present, acyclic) is the property's notion of a
+well-formed forest; `wfB` is the executable check the driver evaluates on navis' own node tables and
+is proved here to decide `WF` exactly.  Operation theorems are proved for every table and argument;
+the history theorem lifts them to operation sequences of any length by list induction.
+-/
 namespace Navis.Props.C01
 open Navis.Forest
-theorem placeholder : True := trivial
+
+/-- The executable check used as the run-time oracle is sound and complete for `WF`. -/
+theorem wfB_decides_WF (t : Table) : wfB t = true ↔ WF t := wfB_iff t
+
+/-- The label check means what the property says. -/
+theorem labelsOKB_spec (t : Table) :
+    labelsOKB t = true ↔ ∀ n ∈ t, n.label = labelOf (childCount t n.id) (n.parent < 0) := labelsOKB_iff t
+
+/-- navis' `classify_nodes` computes exactly the label the property demands from child count and
+parent, for every node of every table (well-formed or not). -/
+theorem classify_correct (t : Table) (n : Node) :
+    classifyNode t n = labelOf (childCount t n.id) (n.parent < 0) := classifyNode_eq_labelOf t n
+
+theorem classify_labels_fresh (t : Table) : labelsOKB (classify t) = true := labelsOKB_classify t
+
+/-- Operations proved so far (the remaining constructors of `Op` — `removeNodes`, `downsample` — are
+covered by `Proofs/OpsWF.lean` when present; until then they are validated by the run-time oracle). -/
+def Op.core : Op → Prop
+  | .subset _ | .reroot _ | .cutDistal _ | .cutProximal _ | .reclassify => True
+  | _ => False
+
+theorem op_preserves_WF_partial (t : Table) (hw : WF t) (op : Op) (hop : Op.core op) : WF (applyOp t op) := by
+  cases op with
+  | subset k => exact WF_subset hw _
+  | reroot r => exact WF_reroot hw r
+  | cutDistal c =>
+    simp only [applyOp]
+    cases hc : cut t c with
+    | none => exact hw
+    | some dp => obtain ⟨d, p⟩ := dp; simp only; rw [(cut_some hc).1]; exact WF_subset hw _
+  | cutProximal c =>
+    simp only [applyOp]
+    cases hc : cut t c with
+    | none => exact hw
+    | some dp => obtain ⟨d, p⟩ := dp; simp only; rw [(cut_some hc).2.1]; exact WF_subset hw _
+  | reclassify => exact WF_classify hw
+  | removeNodes w => exact absurd hop (by simp [Op.core])
+  | downsample f p => exact absurd hop (by simp [Op.core])
+
+/-- **Histories**: any finite sequence of (core) operations applied to a well-formed skeleton leaves a
+well-formed skeleton — by induction over the sequence, no bound on its length. -/
+theorem ops_preserve_WF_partial (t : Table) (hw : WF t) (ops : List Op) (hops : ∀ op ∈ ops, Op.core op) :
+    WF (ops.foldl applyOp t) := by
+  induction ops generalizing t with
+  | nil => exact hw
+  | cons op ops ih =>
+    exact ih _ (op_preserves_WF_partial t hw op (hops op (by simp))) (fun o ho => hops o (by simp [ho]))
+
+/-- Operations that end in a re-classification return correct labels. -/
+theorem subset_labels_fresh (t : Table) (keep : Int → Bool) : labelsOKB (subset t keep) = true := labelsOKB_subset t keep
+
+/-! ### Non-vacuity -/
+def ex : Table := [⟨1, -1, 0, 0, 0, .root⟩, ⟨2, 1, 3, 0, 0, .branch⟩, ⟨3, 2, 6, 0, 0, .end_⟩, ⟨4, 2, 3, 4, 0, .end_⟩]
+example : WF ex := (wfB_decides_WF ex).mp (by decide)
+example : WF ([Op.reroot 4, Op.subset [1, 2, 4], Op.cutDistal 2].foldl applyOp ex) :=
+  ops_preserve_WF_partial ex ((wfB_decides_WF ex).mp (by decide)) _ (by intro op h; simp at h; rcases h with rfl | rfl | rfl <;> trivial)
+/-- a cyclic table is rejected -/
+example : wfB [⟨1, 2, 0, 0, 0, .slab⟩, ⟨2, 1, 0, 0, 0, .slab⟩] = false := by decide
+
 end Navis.Props.C01
